@@ -22,7 +22,7 @@ EXPLANATION = (
     ' Rounds 7-8: R2 also: the interval sleep and the send are handed to one awaited gather (requests are `interval` apart whatever a send takes); R4: more stand-in messages for the matcher (a zero-length echo has the same id); R5 also: only shutdown() stops the heartbeat manager and only _message_received starts it (who-may-call).'
 )
 ASSUMPTIONS = ["asyncio.timeout(delay)/Timeout.reschedule(when) semantics as documented (delay None = no deadline)", "loop.time() is the clock asyncio.timeout uses"]
-FLOORS = {"C08.R1": 5, "C08.R2": 4, "C08.R3": 7, "C08.R4": 5, "C08.R5": 5, "C08.R6": 1, "C08.R7": 1, "C08.R8": 1}
+FLOORS = {"C08.R1": 5, "C08.R2": 4, "C08.R3": 7, "C08.R4": 5, "C08.R5": 5, "C08.R6": 1, "C08.R7": 1, "C08.R8": 1, "C08.R9": 1}
 
 
 def run(ctx):
@@ -33,6 +33,9 @@ def run(ctx):
     r5(ctx)
     from . import c07
     from .common import reuse
+    from . import c05 as _c05
+
+    reuse(ctx, "C08.R9", [lambda c: _c05.console_version_refuses_nothing(c, "C05.R6")], "an answered heartbeat is recognised whatever version text it carries: the console-version decoder refuses nothing, so the answer reaches the matcher instead of resetting the link (C05.R6)")
 
     reuse(ctx, "C08.R6", [c07.r2, c07.r3], "a heartbeat reset really re-establishes the connection (C07.R2 reset = disconnect + reconnect and cannot raise, C07.R3 failed attempts are retried)")
     from . import c15
@@ -232,6 +235,11 @@ def r4(ctx):
         ok, found = _matcher_ok(ctx, am, matcher)
         ctx.check(ok, R, f"{clsname}.is_heartbeat_response", am, matcher, "True exactly for isinstance(message, ExtendedMessage) with sub_message.message_id == console version id 0xFF30", found)
         msg = next((k.value for k in cons[0].keywords if k.arg == "message"), cons[0].args[0] if cons[0].args else None)
+        if isinstance(msg, ast.Name):
+            # an explaining local of __init__ bound once to the message
+            defs_ = [a_ for a_ in ast.walk(init) if isinstance(a_, ast.Assign) and len(a_.targets) == 1 and isinstance(a_.targets[0], ast.Name) and a_.targets[0].id == msg.id]
+            if len(defs_) == 1:
+                msg = defs_[0].value
         names = [ctx.repo.resolve_class(am, c.func).name for c in ast.walk(msg) if isinstance(c, ast.Call) and ctx.repo.resolve_class(am, c.func) is not None] if msg is not None else []
         ctx.check(names == ["ExtendedMessage", "ConsoleVersionRequest"], R, f"{clsname}:heartbeat-message", am, cons[0], "heartbeat message = ExtendedMessage(ConsoleVersionRequest())", "/".join(names))
 
